@@ -85,7 +85,7 @@ prop("C20", "RL (no stuck cycle path) + ranking variable on find_diff_start/find
 
 prop("C02", "RG gates of the replace algorithm (validation through close(), open-depth guards, text merging, range cutting), RU on the text cuts, RT3 (0 is a position)", [gates("C02"), rcustom.rule_rt3, lambda p, r: ru.rule_ru(p, r, files=("prosemirror/model/fragment.py", "prosemirror/model/node.py"))])
 prop("C03", "RN (get_map of both replace steps is the documented function of the fields apply uses; size-preserving steps report the empty map), RS-accumulator on StepMap.for_each, RP-add_step (the mapping receives the map of the step just recorded), RG forms of the node-level steps, RT3 (0 is a position in the slices the steps cut)", [rcustom.rule_rt3, rn.rule_rn_formulas, rs.rule_rs_accumulator, rcustom.rule_rp_add_step, gates("C03"), lambda p, r: rn.rule_rsib(p, r, only=(), parts=("trio",))])
-prop("C04", "RG gates of history bookkeeping and of the inverse constructions; RT3 (0 is a position: the inverse of an insertion at the document start is built from `doc.slice(0, 0)`)", [gates("C04"), rn.rule_rn_formulas, rcustom.rule_rp_add_step, rf.rule_rf_accumulators, rcustom.rule_rt3, lambda p, r: rn.rule_rsib(p, r, only=("MarkStep",))])
+prop("C04", "RG gates of history bookkeeping and of the inverse constructions; RT3 (0 is a position: the inverse of an insertion at the document start is built from `doc.slice(0, 0)`); RU on the text cuts of Fragment.cut / Node.slice, from which every inverse slice is taken", [gates("C04"), rn.rule_rn_formulas, rcustom.rule_rp_add_step, rf.rule_rf_accumulators, rcustom.rule_rt3, lambda p, r: rn.rule_rsib(p, r, only=("MarkStep",)), lambda p, r: ru.rule_ru(p, r, files=("prosemirror/model/fragment.py", "prosemirror/model/node.py"))])
 prop("C07", "RG gates: each validity predicate contains the conjuncts of the definition of validity", [gates("C07"), rcustom.rule_rc_dep, rsmall.rule_rm])
 prop("C10", "RF (no in-place write reaches a shared value): RF-mut (every in-place mutation has a fresh receiver or a declared non-value owner), RF-attr (value-type fields assigned only in __init__), RF-acc (accumulators append-only, single writer), RF-json, RD, RG gates on identity shortcuts", [rf.rule_rf_mutations, rf.rule_rf_owner_init, rf.rule_rf_attr_stores, rf.rule_rf_accumulators, rf.rule_rf_json, rsmall.rule_rd, rcustom.rule_copy_fresh, rf.rule_rf_returns_fresh, gates("C10")])
 prop("C11", "RP-fitter (placed / frontier-match pairing, frontier pushes), RG gates of the fitter (mark filter on placement, isolating barrier), RT on NodeType.allowed_marks", [rcustom.rule_rp_fitter, lambda p, r: rsmall.rule_re(p, r, files=("prosemirror/transform/replace.py", "prosemirror/transform/transform.py"), min_reads=0), gates("C11"), lambda p, r: rt.rule_rt(p, r, only={"prosemirror/model/schema.py::NodeType.allowed_marks"})])
